@@ -72,7 +72,7 @@ static uint32_t          verif_sched_seed, verif_sched_permille, verif_sched_max
 static volatile uint32_t verif_thread_ordinal = 0;
 static volatile uint64_t verif_sched_events   = 0;
 static __thread uint64_t verif_rng            = 0;
-EB_API uint64_t svt_verif_sched_event_count(void) { return verif_sched_events; }
+__attribute__((visibility("default"))) uint64_t svt_verif_sched_event_count(void) { return verif_sched_events; }
 static void verif_sched_init(void) {
     const char *e = getenv("SVT_VERIF_SCHED");
     unsigned    a = 0, b = 0, c = 0;
